@@ -211,8 +211,16 @@ def check_case(case, ctx):
     amax = float(np.abs(off).max())
     cols = [j for j in range(W) if valid[:, j].all()]
     if case['start'] == 0 and len(cols) < W:
-        from mc.core import HarnessError
-        raise HarnessError(f'lattice baseline leaves the coordinate image: {desc}')
+        # lattice baselines are built so that the whole band (heights, bend of the fitted curve, interpolation support) is inside the
+        # page; if that is so geometrically, samples without page content are the library's doing, not the harness'
+        reach = amax + 2 * dev + 4
+        inside = P[:, 0].min() - reach >= 0 and P[:, 1].min() - reach >= 0 and P[:, 0].max() + reach <= IMG_W - 1 and P[:, 1].max() + reach <= IMG_H - 1
+        if not inside:
+            from mc.core import HarnessError
+            raise HarnessError(f'lattice baseline leaves the coordinate image: {desc}')
+        ctx.violation('same-pixels-inside-or-outside-the-page', f'{K}/line-inside-the-page-sampled-outside',
+                      f'{desc}: the line lies wholly inside the {IMG_W}x{IMG_H} page, yet {W - len(cols)} of {W} crop columns contain samples without page content')
+        return
     # baseline point of every column = position at offset 0 (interpolated between the two neighbouring rows)
     r0 = (0 - off[0]) / (off[-1] - off[0]) * (lh - 1)
     i0 = min(int(math.floor(r0)), lh - 2)
